@@ -1,10 +1,10 @@
 """Contracts for the typed list/dict values (fields/list_field.py, fields/dict_field.py): C17, C01, C06, C15."""
 
 LINKS_ATTRS = "'Config._parent', 'Config._key', 'Config._container'"
-KS = "'Config._Config__keyfile', 'KeyFile._KeyFile__key', 'KeyFile._KeyFile__refcount'"
+KS = "'Config._Config__keyfile', 'Config._Config__default_keyfile', 'KeyFile._KeyFile__key', 'KeyFile._KeyFile__refcount'"
 UNCH = "heap_unchanged(%s, %s)" % (LINKS_ATTRS, KS)
 ADOPT = ["Config._parent@*", "Config._key@*", "Config._container@*"]
-KEYFILE_STATE = ["fs", "rand_ctr", "fresh", "ncalls", "Config._Config__keyfile@*", "KeyFile._KeyFile__key@*", "KeyFile._KeyFile__refcount@*"]
+KEYFILE_STATE = ["fs", "rand_ctr", "fresh", "ncalls", "Config._Config__keyfile@*", "Config._Config__default_keyfile@*", "KeyFile._KeyFile__key@*", "KeyFile._KeyFile__refcount@*"]
 # the item is acceptable for the list's item field: a linked configuration for schema / config-type items,
 # a value satisfying the item field's constraints otherwise
 ITEM_OK = ("ite(typeis(self.list_field.field, 'ref:Field'), %(V)s is None or accepts(self.list_field.field, %(V)s),"
